@@ -79,6 +79,28 @@ pub fn run(ctx: &mut Ctx) {
     });
     ctx.require(&r, &["wraps_below_zero", "wraps_past_midnight", "no_wrap"]);
 
+    // sums landing exactly on a multiple of a day (from both sides, any magnitude)
+    let r = ctx.sweep_each("sums_landing_on_midnight", "every second of the day x µs {0,1,999999} x k in -3..=3 (and +/-99,999,999): interval = k days - time, so that time + interval is an exact multiple of a day; add and sub of the negation", 86_400 * 3, 4096, |idx, acc| {
+        let t_us = (idx / 3) as i64 * US_SEC + [0i64, 1, 999_999][(idx % 3) as usize];
+        let t = Time::try_from_usecs(t_us).unwrap();
+        acc.states += 1;
+        for k in [-99_999_999i64, -3, -2, -1, 0, 1, 2, 3, 99_999_999] {
+            let iv_us = k * US_DAY - t_us;
+            let iv = match IntervalDT::try_from_usecs(iv_us) { Ok(i) => i, Err(_) => continue };
+            let niv = IntervalDT::try_from_usecs(-iv_us).unwrap();
+            acc.t(2);
+            acc.traces += 1;
+            acc.nontrivial += 1;
+            let got = guard(|| (t.add_interval_dt(iv).usecs(), t.sub_interval_dt(niv).usecs()));
+            if k < 0 || (k == 0 && t_us > 0) { acc.cls("negative_multiple_of_a_day") } else { acc.cls("non_negative_multiple_of_a_day") }
+            if got != Ok((0, 0)) {
+                acc.fail("C12:Time:add_interval_dt:sum-on-day-multiple-not-midnight", idx, || (format!("Time({t_us}).add_interval_dt(IntervalDT({iv_us})) / sub_interval_dt(IntervalDT({}))", -iv_us), "00:00:00 (0 µs) from both".into(), format!("{got:?}"),
+                    format!("assert_eq!(Time::try_from_usecs({t_us}).unwrap().add_interval_dt(IntervalDT::try_from_usecs({iv_us}).unwrap()).usecs(), 0);")));
+            }
+        }
+    });
+    ctx.require(&r, &["negative_multiple_of_a_day", "non_negative_multiple_of_a_day"]);
+
     // differences
     let np = pool.len() as u64;
     let others: [i64; 3] = [0, 43_200 * US_SEC, US_DAY - 1];
